@@ -3,6 +3,36 @@ import Model.GoConv
 import Generated.GoUpdate
 import Props.Gen18
 
+/-
+  The tie by translation for C07: `(*State).Update` of ui/ui.go — the function every key byte goes
+  through — is translated from the source on every run (`extract/go2lean16.go` →
+  `Generated/GoUpdate.lean`, namespace `GenUpdate`): the `loading` early return, Escape, Backspace,
+  the command line, `:` and the digits, selection mode with `strconv.Atoi` and `SelectLink`, the
+  fall-through into the final `switch input`, one case per key.  What a branch does beyond mode and
+  buffer are calls of the parameter `env` (the other methods of `*State`, the methods of package
+  pub), with the arguments the source gives them.
+
+  Here the actions are interpreted by the model's own functions (`env`: `Ui.loadSurroundings`,
+  `Ui.switchTo`, `Ui.openExternally`, `Ui.openItem`, `Ui.subcommand`, `Ui.selectLink`,
+  `Link.postMedia` …; history and feed methods are the translated ones of `Generated/GoHistory.lean`
+  and `GoFeed.lean`), and the theorem is
+
+    `update_eq`:  GenUpdate.Update (env w s.context s.feeds) (enc s) k = (Ui.update w s k).map enc
+
+  for every model state `s` and every `k`, under the one clause of the model's invariant that
+  `strconv.Atoi` needs (in selection mode the buffer is a non-empty digit string).  `enc` encodes a
+  model state as a translated state: modes by the numbers of the `const` block, items by the sum
+  of the four types behind `pub.Tangible` (the model's fifth kind of item, a collection, which no
+  feed holds, travels in the `Failure` slot: every key treats it as it treats a failure), the
+  fields of a page that `Update` does not touch as `rest`.  `dec` is its inverse (`dec_enc`).
+
+  One action needs a word: Go's `subcommand` returns an error for an unknown name and `Update`
+  shows it; the model's `Ui.subcommand` has that branch of `Update` folded in.  `env.subcommand`
+  therefore answers an unknown name with the error `subcommand` of ui.go builds (state unchanged)
+  and is `Ui.subcommand` for `open` and `feed`; the theorem then says `Update`'s error branch ends
+  where the model's third branch ends.
+-/
+
 set_option linter.unusedSimpArgs false
 
 namespace Gen07
@@ -386,5 +416,221 @@ theorem atoi_digits (b : Str) (hne : b ≠ []) (hd : ∀ ch ∈ b, ch.isDigit = 
       · have h3 : val (c :: t) 0 ≥ 2 ^ 63 := by omega
         simp [h1, h2, h3]
       · simp [h1, h2]
+
+theorem upd_select (w : World) (s : Ui.State) (k : Nat) (hm : s.mode = .selection) (hk : k = 46 ∨ k = 13)
+    (hne : s.buffer ≠ []) (hd : ∀ ch ∈ s.buffer, ch.isDigit = true) :
+    GenUpdate.Update (env w s.context s.feeds) (enc s) k = (Ui.update w s k).map enc := by
+  unfold GenUpdate.Update Ui.update
+  have ha := atoi_digits s.buffer hne hd
+  rcases hk with hk | hk <;> subst hk <;> pick [hm, current_encH, currentItem, false_and, and_true, true_or, or_true, or_false] <;>
+    (cases hcur : History.current s.hist with
+     | error e => rfl
+     | ok page =>
+       simp only [feedCurrent_enc]
+       cases hit : Feed.current page.feed with
+       | none =>
+         cases hat : Ui.atoi s.buffer <;> simp [enc, modeNum, GenUpdate.normal]
+       | some x =>
+         cases hat : Ui.atoi s.buffer with
+         | none => simp [ha, hat, enc, modeNum, GenUpdate.normal]
+         | some n =>
+           simp only [ha, hat, Option.map_some, Option.isNone_none, Option.isSome_some, Bool.and_self, if_true, Go.deref,
+             decT_encT]
+           cases hsl : selectLink x n with
+           | none => simp [enc, modeNum, GenUpdate.normal]
+           | some l =>
+             simp only [Bool.not_true, Bool.false_eq_true, if_false, Ui.openExternally, enc, modeNum, GenUpdate.opening]
+             try (first | rfl | (cases openItem w s (new w (JVal.str l) none) <;> rfl)))
+
+@[simp] theorem encPage_feed (p : Ui.Page) : (encPage p).feed = encFeed p.feed := rfl
+@[simp] theorem encPage_rest (p : Ui.Page) : (encPage p).rest = (p.frontier, p.children, p.basepoint) := rfl
+
+theorem mk_encPage (f : Feed.F T) (p : Ui.Page) :
+    (⟨encFeed f, (p.frontier, p.children, p.basepoint)⟩ : GPage) = encPage { p with feed := f } := rfl
+
+theorem nodigit (k : Nat) (hd : ¬ (48 ≤ k ∧ k ≤ 57)) : (decide (48 ≤ k) && decide (k ≤ 57)) = false := by
+  by_cases h : 48 ≤ k
+  · have : ¬ k ≤ 57 := fun h2 => hd ⟨h, h2⟩
+    simp [h, this]
+  · simp [h]
+
+@[simp] theorem encT_post (p : PostM) : encT (.post p) = .post p := rfl
+@[simp] theorem encT_actor (p : ActorM) : encT (.actor p) = .actor p := rfl
+@[simp] theorem encT_activity (p : ActivityM) : encT (.activity p) = .activity p := rfl
+@[simp] theorem encT_failure : encT .failure = .failure none := rfl
+@[simp] theorem encT_collection (c : CollM) : encT (.collection c) = .failure (some c) := rfl
+
+theorem allSome_map (xs : List T) : allSome (xs.map fun x => some (encT x)) = some xs := by
+  induction xs with
+  | nil => rfl
+  | cons x xs ih => simp [allSome, ih]
+
+/-- The keys that move inside the current page's feed (`k`, `j`, `g`). -/
+macro "movekey" : tactic =>
+  `(tactic| (
+    unfold GenUpdate.Update Ui.keySwitch
+    rename_i hm
+    rcases hm with hmm | hmm | hmm <;>
+    (pick [hmm, current_encH, withFeed, currentItem]
+     cases hcur : History.current _ with
+     | error e => rfl
+     | ok page =>
+       simp only [encPage_feed, encPage_rest, moveUp_enc, moveDown_enc, moveToCenter_enc, mk_encPage, setCurrent_encH,
+         dec_mk, modeOf, Ui.setCurrent, hmm, Int.reduceEq, ↓reduceIte, enc, modeNum, GenUpdate.normal,
+         GenUpdate.opening, GenUpdate.problem]
+       try (first
+         | rfl
+         | (generalize loadSurroundings _ _ = r; cases r <;> rfl)))))
+
+/-- The keys that act on the highlighted item (space, `c`, `r`, `a`, `o`, `p`, `b`). -/
+macro "itemkey" : tactic =>
+  `(tactic| (
+    unfold GenUpdate.Update Ui.keySwitch
+    rename_i hm
+    rcases hm with hmm | hmm | hmm <;>
+    (pick [hmm, current_encH, withFeed, currentItem, mediaOf, pictureOf, unwrapPost]
+     cases hcur : History.current _ with
+     | error e => rfl
+     | ok page =>
+       simp only [feedCurrent_enc]
+       cases hit : Feed.current page.feed with
+       | none => simp
+       | some x =>
+         cases x with
+         | activity a =>
+           cases hta : a.target <;> cases hact : a.actor <;>
+             simp only [encT_post, encT_actor, encT_activity, encT_failure, encT_collection, targetT, hta, hact,
+               Option.map_some, Option.isSome_some, argOf, allSome_map, decT, true_or, or_true, or_false, false_or,
+               if_true, if_false, Bool.false_eq_true, decide_true, decide_false] <;>
+             (try (generalize switchTo _ _ _ = r; cases r <;> rfl)) <;>
+             (try (generalize Link.postMedia _ _ _ = r; cases r <;> rfl)) <;>
+             (try rfl)
+         | _ =>
+           simp only [encT_post, encT_actor, encT_activity, encT_failure, encT_collection, targetT,
+               Option.map_some, Option.isSome_some, argOf, allSome_map, decT, true_or, or_true, or_false, false_or,
+               if_true, if_false, Bool.false_eq_true, decide_true, decide_false] <;>
+             (try (generalize switchTo _ _ _ = r; cases r <;> rfl)) <;>
+             (try (generalize Link.postMedia _ _ _ = r; cases r <;> rfl)) <;>
+             (try (generalize Link.actorPfp _ _ = r; cases r <;> rfl)) <;>
+             (try (generalize Link.actorBanner _ _ = r; cases r <;> rfl)) <;>
+             (try rfl))))
+
+section Switch
+variable (w : World) (s : Ui.State) (hm : s.mode = .normal ∨ s.mode = .opening ∨ s.mode = .problem)
+include hm
+
+theorem sw_k : GenUpdate.Update (env w s.context s.feeds) (enc s) 107 = (Ui.keySwitch w s 107).map enc := by movekey
+theorem sw_j : GenUpdate.Update (env w s.context s.feeds) (enc s) 106 = (Ui.keySwitch w s 106).map enc := by movekey
+theorem sw_g : GenUpdate.Update (env w s.context s.feeds) (enc s) 103 = (Ui.keySwitch w s 103).map enc := by movekey
+theorem sw_space : GenUpdate.Update (env w s.context s.feeds) (enc s) 32 = (Ui.keySwitch w s 32).map enc := by itemkey
+theorem sw_c : GenUpdate.Update (env w s.context s.feeds) (enc s) 99 = (Ui.keySwitch w s 99).map enc := by itemkey
+theorem sw_r : GenUpdate.Update (env w s.context s.feeds) (enc s) 114 = (Ui.keySwitch w s 114).map enc := by itemkey
+theorem sw_a : GenUpdate.Update (env w s.context s.feeds) (enc s) 97 = (Ui.keySwitch w s 97).map enc := by itemkey
+theorem sw_o : GenUpdate.Update (env w s.context s.feeds) (enc s) 111 = (Ui.keySwitch w s 111).map enc := by itemkey
+theorem sw_p : GenUpdate.Update (env w s.context s.feeds) (enc s) 112 = (Ui.keySwitch w s 112).map enc := by itemkey
+theorem sw_b : GenUpdate.Update (env w s.context s.feeds) (enc s) 98 = (Ui.keySwitch w s 98).map enc := by itemkey
+
+theorem sw_h : GenUpdate.Update (env w s.context s.feeds) (enc s) 104 = (Ui.keySwitch w s 104).map enc := by
+  unfold GenUpdate.Update Ui.keySwitch
+  rcases hm with hmm | hmm | hmm <;> pick [hmm, back_encH, enc] <;> rfl
+
+theorem sw_l : GenUpdate.Update (env w s.context s.feeds) (enc s) 108 = (Ui.keySwitch w s 108).map enc := by
+  unfold GenUpdate.Update Ui.keySwitch
+  rcases hm with hmm | hmm | hmm <;> pick [hmm, forward_encH, enc] <;> rfl
+
+theorem sw_other (k : Nat) (h27 : k ≠ 27) (h127 : k ≠ 127) (h58 : k ≠ 58) (hd : ¬ (48 ≤ k ∧ k ≤ 57))
+    (c1 : k ≠ 107) (c2 : k ≠ 106) (c3 : k ≠ 103) (c4 : k ≠ 104) (c5 : k ≠ 108) (c6 : k ≠ 32) (c7 : k ≠ 99)
+    (c8 : k ≠ 114) (c9 : k ≠ 97) (c10 : k ≠ 111) (c11 : k ≠ 112) (c12 : k ≠ 98) :
+    GenUpdate.Update (env w s.context s.feeds) (enc s) k = (Ui.keySwitch w s k).map enc := by
+  have hd' := nodigit k hd
+  unfold GenUpdate.Update Ui.keySwitch
+  rcases hm with hmm | hmm | hmm <;>
+    pick [hmm, h27, h127, h58, hd', c1, c2, c3, c4, c5, c6, c7, c8, c9, c10, c11, c12, or_self, enc] <;> rfl
+
+end Switch
+
+/-- Every key of the final `switch`, and every byte that is none of them. -/
+theorem upd_switch (w : World) (s : Ui.State) (k : Nat)
+    (hm : s.mode = .normal ∨ s.mode = .opening ∨ s.mode = .problem)
+    (h27 : k ≠ 27) (h127 : k ≠ 127) (h58 : k ≠ 58) (hd : ¬ (48 ≤ k ∧ k ≤ 57)) :
+    GenUpdate.Update (env w s.context s.feeds) (enc s) k = (Ui.keySwitch w s k).map enc := by
+  by_cases c1 : k = 107; · subst c1; exact sw_k w s hm
+  by_cases c2 : k = 106; · subst c2; exact sw_j w s hm
+  by_cases c3 : k = 103; · subst c3; exact sw_g w s hm
+  by_cases c4 : k = 104; · subst c4; exact sw_h w s hm
+  by_cases c5 : k = 108; · subst c5; exact sw_l w s hm
+  by_cases c6 : k = 32; · subst c6; exact sw_space w s hm
+  by_cases c7 : k = 99; · subst c7; exact sw_c w s hm
+  by_cases c8 : k = 114; · subst c8; exact sw_r w s hm
+  by_cases c9 : k = 97; · subst c9; exact sw_a w s hm
+  by_cases c10 : k = 111; · subst c10; exact sw_o w s hm
+  by_cases c11 : k = 112; · subst c11; exact sw_p w s hm
+  by_cases c12 : k = 98; · subst c12; exact sw_b w s hm
+  exact sw_other w s hm k h27 h127 h58 hd c1 c2 c3 c4 c5 c6 c7 c8 c9 c10 c11 c12
+
+/-- In selection mode a key that is neither special nor a digit nor `.` nor Enter resets the mode
+    and the buffer and is then handled as in normal mode (the fall-through of the source), whatever
+    the actions are. -/
+theorem fallthrough (e : GEnv) (g : GState) (k : Nat) (hm : g.mode = GenUpdate.selection)
+    (h27 : k ≠ 27) (h127 : k ≠ 127) (h58 : k ≠ 58) (hd : ¬ (48 ≤ k ∧ k ≤ 57)) (h46 : k ≠ 46) (h13 : k ≠ 13) :
+    GenUpdate.Update e g k = GenUpdate.Update e { g with mode := GenUpdate.normal, buffer := [] } k := by
+  have hd' := nodigit k hd
+  unfold GenUpdate.Update
+  simp only [hm, GenUpdate.loading, GenUpdate.normal, GenUpdate.command, GenUpdate.selection,
+      GenUpdate.enterKey, GenUpdate.escapeKey, GenUpdate.backspaceKey,
+      Int.reduceEq, Char.reduceToNat, decide_false, decide_true, Bool.false_eq_true,
+      ↓reduceIte, Bool.or_self, ge_iff_le, str_empty, h27, h127, h58, hd', h46, h13]
+
+/-- The model's side of the same: outside the three modes that have a branch of their own, and
+    for a key that is neither special nor `:` nor a digit, `update` is `keySwitch`. -/
+theorem update_plain (w : World) (s : Ui.State) (k : Nat)
+    (hm : s.mode = .normal ∨ s.mode = .opening ∨ s.mode = .problem)
+    (h27 : k ≠ 27) (h127 : k ≠ 127) (h58 : k ≠ 58) (hd : ¬ (48 ≤ k ∧ k ≤ 57)) :
+    Ui.update w s k = Ui.keySwitch w s k := by
+  unfold Ui.update
+  rcases hm with hmm | hmm | hmm <;>
+    simp only [hmm, reduceCtorEq, if_false, h27, h127, h58, Char.reduceToNat, hd]
+
+theorem update_fall (w : World) (s : Ui.State) (k : Nat) (hm : s.mode = .selection)
+    (h27 : k ≠ 27) (h127 : k ≠ 127) (h58 : k ≠ 58) (hd : ¬ (48 ≤ k ∧ k ≤ 57)) (h46 : k ≠ 46) (h13 : k ≠ 13) :
+    Ui.update w s k = Ui.keySwitch w { s with mode := .normal, buffer := [] } k := by
+  unfold Ui.update
+  simp only [hm, reduceCtorEq, if_false, if_true, h27, h127, h58, h46, h13, Char.reduceToNat, hd, or_self]
+
+/-- **The translated `Update` is the model's `update`**, the actions being the model's own
+    functions (`env`): on every state of the model — every mode, every history (also the empty
+    one: the panic of `Current()`), every feed, every highlighted item — and every key byte, the
+    translated code run on the encoded state ends in the encoding of the state `Ui.update`
+    computes, or in the same panic.  The one hypothesis is the part of the model's invariant
+    (`Ui.Inv`) that `strconv.Atoi` needs: in selection mode the buffer is a non-empty digit string
+    (on other strings the model's `atoi` is not `strconv.Atoi`). -/
+theorem update_eq (w : World) (s : Ui.State) (k : Nat)
+    (hsel : s.mode = .selection → s.buffer ≠ [] ∧ ∀ ch ∈ s.buffer, ch.isDigit = true) :
+    GenUpdate.Update (env w s.context s.feeds) (enc s) k = (Ui.update w s k).map enc := by
+  by_cases hl : s.mode = .loading
+  · exact upd_loading w s k hl
+  by_cases h27 : k = 27
+  · subst h27; exact upd_esc w s hl
+  by_cases h127 : k = 127
+  · subst h127; exact upd_backspace w s hl
+  by_cases hc : s.mode = .command
+  · by_cases h13 : k = 13
+    · subst h13; exact upd_command_enter w s hc
+    · exact upd_command_other w s k hc h27 h127 h13
+  by_cases h58 : k = 58
+  · subst h58; exact upd_colon w s hl hc
+  by_cases hd : 48 ≤ k ∧ k ≤ 57
+  · exact upd_digit w s k hl hc hd.1 hd.2
+  by_cases hs : s.mode = .selection
+  · by_cases hk : k = 46 ∨ k = 13
+    · exact upd_select w s k hs hk (hsel hs).1 (hsel hs).2
+    · simp only [not_or] at hk
+      rw [fallthrough _ _ k (by rw [enc_mode, hs]; rfl) h27 h127 h58 hd hk.1 hk.2,
+        update_fall w s k hs h27 h127 h58 hd hk.1 hk.2]
+      exact upd_switch w { s with mode := .normal, buffer := [] } k (.inl rfl) h27 h127 h58 hd
+  · have hm : s.mode = .normal ∨ s.mode = .opening ∨ s.mode = .problem := by
+      cases hmm : s.mode <;> simp_all
+    rw [update_plain w s k hm h27 h127 h58 hd]
+    exact upd_switch w s k hm h27 h127 h58 hd
 
 end Gen07
